@@ -15,8 +15,9 @@ SPECS = {
                    C + '_compute_new_subsample_indices'])],
     'C04': [('abacusnbody/data/bitpacked.py', ['unpack_rvint', '_unpack_rvint', 'unpack_pids', '_unpack_pids',
                                                'empty_bitpacked_arrays'])],
-    'C06': [(TSC, ['_tsc_scatter', '_rightwrap', '_wrap_inplace']), ('abacusnbody/analysis/cic.py', ['cic_serial', 'rightwrap'])],
-    'C07': [(TSC, ['tsc_parallel', '_tsc_parallel'])],
+    'C06': [(TSC, ['_tsc_scatter', '_rightwrap', '_wrap_inplace', 'tsc_parallel', '_tsc_parallel', 'partition_parallel']),
+            ('abacusnbody/analysis/cic.py', ['cic_serial', 'rightwrap']), (PS, ['get_field'])],
+    'C07': [(TSC, ['tsc_parallel', '_tsc_parallel', 'partition_parallel'])],
     'C09': [(GH, ['gen_gals', 'wrap', 'gen_gal_cat'])],
     'C10': [(GH, ['fast_concatenate', 'gen_gals']), ('abacusnbody/hod/abacus_hod.py', ['_searchsorted_parallel'])],
     'C12': [('abacusnbody/hod/abacus_hod.py', ['_searchsorted_parallel'])],
@@ -26,5 +27,5 @@ SPECS = {
     'C15': [('abacusnbody/data/pack9.py', ['unpack_pack9', '_unpack_pack9', '_expand_to_short'])],
     'C16': [('abacusnbody/data/read_abacus.py', ['read_asdf', '_resolve_columns'])],
     'C17': [(TSC, ['partition_parallel'])],
-    'C20': [('abacusnbody/data/pipe_asdf.py', ['unpack_to_pipe'])],
+    'C20': [('abacusnbody/data/pipe_asdf.py', ['unpack_to_pipe', 'main'])],
 }
